@@ -35,6 +35,7 @@ var c16Reqs = []c16Req{
 	{"GET u'", "GET", c16U2, []string{"X-A", "1"}},
 	{"POST u", "POST", U, nil},
 	{"GET u A=1 no-cache", "GET", U, []string{"X-A", "1", "Cache-Control", "no-cache"}},
+	{"GET absent only-if-cached", "GET", "http://example.com/absent", []string{"Cache-Control", "only-if-cached"}},
 }
 
 var c16States = []string{"empty", "fresh", "stale+swr", "stale+must-revalidate", "two-variants", "stale+swr bodiless"}
@@ -47,7 +48,7 @@ func c16Programs() [][]int {
 			ps = append(ps, []int{i, j})
 		}
 	}
-	ps = append(ps, []int{0, 0, 0}, []int{0, 0, 3}, []int{0, 1, 4}, []int{0, 4, 4}, []int{0, 3, 3}, []int{0, 1, 3}, []int{0, 2, 4}, []int{0, 0, 1})
+	ps = append(ps, []int{5, 5, 0}, []int{0, 0, 0}, []int{0, 0, 3}, []int{0, 1, 4}, []int{0, 4, 4}, []int{0, 3, 3}, []int{0, 1, 3}, []int{0, 2, 4}, []int{0, 0, 1})
 	return ps
 }
 
@@ -270,6 +271,12 @@ func runC16(x *mc.X) {
 		outcome = append(outcome, fmt.Sprintf("%d/%s/%s", r.resp.StatusCode, r.snap.Get("X-Httpcache-Status"), tokH))
 		if len(r.body) == 0 && r.bodyErr == nil && tokH != "" && w.Origin.Toks[tokH] != nil && len(w.Origin.Toks[tokH].Body) == 0 {
 			tokB = tokH // a bodiless representation: the header token is all there is
+		}
+		if tokH == "" && r.resp.StatusCode == http.StatusGatewayTimeout && len(r.body) == 0 {
+			if r.snap.Get("X-Caller") != "" || strings.Contains(strings.Join(r.snap.Values("Cache-Control"), ","), "CALLER-MARK") {
+				x.Failf("another caller's mark leaked into a response", "%s: the synthesised 504 carries %v", who, r.snap)
+			}
+			continue // a synthesised 504 carries no token
 		}
 		if r.bodyErr != nil || tokH != tokB {
 			x.Failf("response not self-consistent (header token vs body token)", "%s: X-Tok=%q body=%q err=%v", who, tokH, clipB(r.body), r.bodyErr)
